@@ -1,0 +1,41 @@
+//go:build verif
+
+package file
+
+// Machine-checked contracts for the spokfile logic (comment-only; compiled only with -tags verif).
+
+//@ props C01 C02 C14 C10 C09
+
+//@ pred cp(s *SpokFile) := join2(s.Dir, cache.Path)
+//@ pred distinctNames(ro []task.Task) := forall i int, j int :: {ro[i], ro[j]} 0 <= i && i < j && j < len(ro) ==> ro[i].Name != ro[j].Name
+//@ pred memIsDisk(c *cache.Cache, p string) := diskOK(p) && forall k string :: {mget(mapval(c.inner), k)} {jsonGet(fdata[p], k)} mget(mapval(c.inner), k) == diskGet(p, k)
+
+// run: the top-level clauses are the statements of C01 / C02 / C14 / C09 over the ghost history
+// variable `last` (digest of a task's inputs at its last successful execution, "" if its last
+// execution failed or it never ran) and the abstract cache file.
+//@ func (*SpokFile).run
+//@ requires runner != nil && distinctNames(runOrder)
+//@ requires I01(cp(s))
+//@ modifies fexists, fdata, last, ranCount
+//@ ensures [I01] I01(cp(s))
+//@ ensures [shape] result1 == nil ==> len(result0) == len(runOrder) && forall i int :: {result0[i]} 0 <= i && i < len(result0) ==> result0[i].Task == runOrder[i].Name
+//@ ensures [C01] result1 == nil ==> forall i int :: {result0[i]} 0 <= i && i < len(result0) && result0[i].Skipped ==> last[runOrder[i].Name] != "" && last[runOrder[i].Name] == cur(mapval(s.Globs), runOrder[i])
+//@ ensures [C14] result1 == nil && force ==> forall i int :: {result0[i]} 0 <= i && i < len(result0) ==> !result0[i].Skipped
+//@ ensures [C02-nodeps] result1 == nil ==> forall i int :: {result0[i]} 0 <= i && i < len(result0) && len(inputs(mapval(s.Globs), runOrder[i])) == 0 ==> !result0[i].Skipped
+//@ ensures [C02-skip] result1 == nil && !force && old(diskOK(cp(s))) && ioOK ==> forall i int :: {result0[i]} 0 <= i && i < len(result0) && len(inputs(mapval(s.Globs), runOrder[i])) > 0 && old(diskGet(cp(s), runOrder[i].Name)) != "" && old(diskGet(cp(s), runOrder[i].Name)) == cur(mapval(s.Globs), runOrder[i]) ==> result0[i].Skipped
+//@ ensures [C02-persist] result1 == nil ==> diskOK(cp(s)) && forall i int :: {result0[i]} 0 <= i && i < len(result0) && !result0[i].Skipped && len(inputs(mapval(s.Globs), runOrder[i])) > 0 && cmdsOk(result0[i].CommandResults, len(result0[i].CommandResults)) ==> diskGet(cp(s), runOrder[i].Name) == cur(mapval(s.Globs), runOrder[i])
+//@ ensures [C09-notcached] result1 == nil ==> forall i int :: {result0[i]} 0 <= i && i < len(result0) && !result0[i].Skipped && !cmdsOk(result0[i].CommandResults, len(result0[i].CommandResults)) ==> diskGet(cp(s), runOrder[i].Name) == "" && last[runOrder[i].Name] == ""
+//@ at return Run#0: ghost last = store(last, taskToRun.Name, (err == nil && cmdsOk(result, len(result)) ? cur(mapval(s.Globs), taskToRun) : ""))
+//@ loop 0: invariant 0 <= $i && $i <= len(runOrder) && len(results) == $i
+//@ loop 0: invariant CacheInv(cachedState) && memIsDisk(cachedState, cp(s)) && I01(cp(s))
+//@ loop 0: invariant forall k int :: {results[k]} 0 <= k && k < $i ==> results[k].Task == runOrder[k].Name
+//@ loop 0: invariant forall k int :: {results[k]} 0 <= k && k < $i && results[k].Skipped ==> !force && len(inputs(mapval(s.Globs), runOrder[k])) > 0
+//@ loop 0: invariant forall k int :: {results[k]} 0 <= k && k < $i && results[k].Skipped ==> last[runOrder[k].Name] != ""
+//@ loop 0: invariant forall k int :: {results[k]} 0 <= k && k < $i && results[k].Skipped ==> last[runOrder[k].Name] == cur(mapval(s.Globs), runOrder[k])
+//@ loop 0: invariant old(diskOK(cp(s))) && ioOK ==> forall j int :: {runOrder[j]} $i <= j && j < len(runOrder) ==> diskGet(cp(s), runOrder[j].Name) == old(diskGet(cp(s), runOrder[j].Name))
+//@ loop 0: invariant !force && old(diskOK(cp(s))) && ioOK ==> forall k int :: {results[k]} 0 <= k && k < $i && len(inputs(mapval(s.Globs), runOrder[k])) > 0 && old(diskGet(cp(s), runOrder[k].Name)) != "" && old(diskGet(cp(s), runOrder[k].Name)) == cur(mapval(s.Globs), runOrder[k]) ==> results[k].Skipped
+//@ loop 0: invariant forall k int :: {results[k]} 0 <= k && k < $i && !results[k].Skipped && len(inputs(mapval(s.Globs), runOrder[k])) > 0 && cmdsOk(results[k].CommandResults, len(results[k].CommandResults)) ==> diskGet(cp(s), runOrder[k].Name) == cur(mapval(s.Globs), runOrder[k])
+//@ loop 0: invariant forall k int :: {results[k]} 0 <= k && k < $i && !results[k].Skipped && !cmdsOk(results[k].CommandResults, len(results[k].CommandResults)) ==> diskGet(cp(s), runOrder[k].Name) == "" && last[runOrder[k].Name] == ""
+//@ loop 0: decreases len(runOrder) - $i
+//@ loop 1: invariant 0 <= $i && $i <= len(taskToRun.GlobDependencies) && toHash == globCat(mapval(s.Globs), taskToRun.GlobDependencies, $i)
+//@ loop 1: decreases len(taskToRun.GlobDependencies) - $i
